@@ -320,7 +320,11 @@ func runC08(c *Ctx) {
 				}
 			}
 			if !skip {
-				R.Add("E6.flag-form", n+" / "+p, c.P.RelPos(fn.Pos()), report.Undecided, p)
+				stp := report.Undecided
+				if strings.Contains(p, ": VIOLATED ") {
+					stp, p = report.Violated, strings.Replace(p, ": VIOLATED ", ": ", 1)
+				}
+				R.Add("E6.flag-form", n+" / "+p, c.P.RelPos(fn.Pos()), stp, p)
 			}
 		}
 		got := map[string][]FlagRow{}
